@@ -113,7 +113,7 @@ func (c *container) OnAdd(kv internal.KV) {
 }
 
 func (c *container) OnDelete(kv internal.KV) {
-	c.removeKey(kv.Key)
+	c.removeKey(kv.Key, kv.Val)
 	c.notifyChange()
 }
 
@@ -123,6 +123,10 @@ func (c *container) addKv(key, value string) ([]string, bool) {
 	defer c.lock.Unlock()
 
 	c.dirty.Set(true)
+	// the key is updated in place, it no longer associates with its previous value
+	if old, ok := c.mapping[key]; ok && old != value {
+		c.doRemoveKey(key)
+	}
 	keys := c.values[value]
 	previous := append([]string(nil), keys...)
 	early := len(keys) > 0
@@ -198,10 +202,15 @@ func (c *container) notifyChange() {
 	}
 }
 
-// removeKey removes the kv, returns true if there are still other keys associate with the value
-func (c *container) removeKey(key string) {
+// removeKey removes the key. If value is given and the key has been updated to another value,
+// the removal is stale (reloading adds the changed kvs before removing the old ones) and ignored.
+func (c *container) removeKey(key, value string) {
 	c.lock.Lock()
 	defer c.lock.Unlock()
+
+	if cur, ok := c.mapping[key]; ok && len(value) > 0 && cur != value {
+		return
+	}
 
 	c.dirty.Set(true)
 	c.doRemoveKey(key)
